@@ -540,7 +540,14 @@ impl WatchDispatcher {
                     match result {
                         Ok(event) => self.dispatch_event(event).await,
                         Err(broadcast::error::RecvError::Lagged(n)) => {
-                            warn!("WatchDispatcher lagged {} events (slow watchers)", n);
+                            // The broadcast buffer overflowed: `n` events are gone and any
+                            // watcher may have missed some of them. A gap must never be silent:
+                            // end every stream with CANCELED so clients re-sync and re-register.
+                            warn!(
+                                "WatchDispatcher lagged {} events: cancelling all watchers",
+                                n
+                            );
+                            self.cancel_all_watchers();
                         }
                         Err(broadcast::error::RecvError::Closed) => {
                             debug!("Broadcast channel closed, WatchDispatcher stopping");
@@ -555,6 +562,30 @@ impl WatchDispatcher {
             }
         }
         debug!("WatchDispatcher stopped");
+    }
+
+    /// End every active stream with CANCELED and unregister its watcher (used when events were
+    /// lost before they could be routed, so nobody can tell which watchers missed one).
+    fn cancel_all_watchers(&self) {
+        for map in [&self.registry.exact, &self.registry.prefix] {
+            let keys: Vec<Bytes> = map.iter().map(|e| e.key().clone()).collect();
+            for key in keys {
+                let ids: Vec<u64> = match map.get(&key) {
+                    Some(watchers) => watchers
+                        .iter()
+                        .map(|w| {
+                            // the reserved slot keeps CANCELED deliverable even when full
+                            let _ = w.sender.try_send(crate::watch::make_cancel_event(key.clone()));
+                            w.id
+                        })
+                        .collect(),
+                    None => continue,
+                };
+                for id in ids {
+                    self.registry.unregister(id, &key);
+                }
+            }
+        }
     }
 
     /// Broadcast a synthetic Progress event to ALL active watchers regardless of key.
